@@ -104,118 +104,48 @@ class SATEncoder:
 
     # Expression handling
 
-    def _flatten_sum(self, expr: Any) -> tuple[list["IntVar"], int]:
-        """Flatten a sum expression into (list of variables, constant offset)."""
-        from solvor.cp import IntVar
-
-        terms: list[IntVar] = []
-        const = 0
-
-        def flatten(e: Any) -> None:
-            nonlocal const
-            if isinstance(e, IntVar):
-                terms.append(e)
-            elif isinstance(e, int):
-                const += e
-            elif isinstance(e, tuple) and e[0] == "add":
-                flatten(e[1])
-                flatten(e[2])
-            elif isinstance(e, tuple) and e[0] == "mul":
-                # Handle multiplication: (mul, var_or_expr, int_coef)
-                _, operand, coef = e
-                if isinstance(operand, IntVar) and isinstance(coef, int):
-                    # For now, we can only handle coef == 1 directly
-                    # More complex cases need auxiliary variables
-                    for _ in range(coef):
-                        terms.append(operand)
-                elif isinstance(coef, IntVar) and isinstance(operand, int):
-                    for _ in range(operand):
-                        terms.append(coef)
-
-        flatten(expr)
-        return terms, const
-
     def _encode_ne_expr(self, left: Any, right: Any, is_ne: bool) -> None:
         """Encode (left_expr != right_expr) or (left_expr == right_expr).
 
-        Handles linear expressions like (x + c1) != (y + c2).
+        Handles any linear expression: sum(coef * var) + const on either side.
         """
-        from solvor.cp import IntVar
+        from solvor.cp import _linearize
 
-        # Handle subtraction: (x - y) ?= c => x ?= y + c
-        if isinstance(left, tuple) and left[0] == "sub":
-            x, y = left[1], left[2]
-            if isinstance(x, IntVar) and isinstance(y, IntVar):
-                right_const = right if isinstance(right, int) else 0
+        terms, const = _linearize(left, right)
+        target = -const
+
+        # Each term coef * var as a map from its possible values to the literal selecting that value
+        maps = [{coef * val: lit for val, lit in var.bool_vars.items()} for var, coef in terms]
+
+        # Fold terms pairwise into an auxiliary partial sum until at most two are left
+        while len(maps) > 2:
+            a, b = maps.pop(), maps.pop()
+            total = {s: self._new_bool_var() for s in sorted({va + vb for va in a for vb in b})}
+            self._encode_exactly_one(list(total.values()))
+            for va, lit_a in a.items():
+                for vb, lit_b in b.items():
+                    self._clauses.append([-lit_a, -lit_b, total[va + vb]])
+            maps.append(total)
+
+        if not maps:
+            if (target != 0) != is_ne:
+                self._clauses.append([])  # Unsatisfiable
+        elif len(maps) == 1:
+            lit = maps[0].get(target)
+            if is_ne:
+                if lit is not None:
+                    self._clauses.append([-lit])
+            else:
+                self._clauses.append([lit] if lit is not None else [])
+        else:
+            a, b = maps
+            for va, lit_a in a.items():
+                lit_b = b.get(target - va)
                 if is_ne:
-                    for v1 in x.bool_vars:
-                        v2 = v1 - right_const
-                        if v2 in y.bool_vars:
-                            self._clauses.append([-x.bool_vars[v1], -y.bool_vars[v2]])
+                    if lit_b is not None:
+                        self._clauses.append([-lit_a, -lit_b])
                 else:
-                    for v1 in x.bool_vars:
-                        v2 = v1 - right_const
-                        if v2 in y.bool_vars:
-                            self._clauses.append([-x.bool_vars[v1], y.bool_vars[v2]])
-                            self._clauses.append([x.bool_vars[v1], -y.bool_vars[v2]])
-                        else:
-                            self._clauses.append([-x.bool_vars[v1]])
-                return
-
-        left_terms, left_const = self._flatten_sum(left)
-        right_terms, right_const = self._flatten_sum(right)
-
-        # Handle case: single var + const on left, constant on right
-        if len(left_terms) == 1 and len(right_terms) == 0:
-            var = left_terms[0]
-            target = right_const - left_const
-            if is_ne:
-                self._encode_ne_const(var, target)
-            else:
-                self._encode_eq_const(var, target)
-            return
-
-        # Handle case: constant on left, single var + const on right
-        if len(left_terms) == 0 and len(right_terms) == 1:
-            var = right_terms[0]
-            target = left_const - right_const
-            if is_ne:
-                self._encode_ne_const(var, target)
-            else:
-                self._encode_eq_const(var, target)
-            return
-
-        # Handle case: two vars on left, constant on right
-        if len(left_terms) == 2 and len(right_terms) == 0:
-            target = right_const - left_const
-            if is_ne:
-                v1, v2 = left_terms
-                for val1 in v1.bool_vars:
-                    val2 = target - val1
-                    if val2 in v2.bool_vars:
-                        self._clauses.append([-v1.bool_vars[val1], -v2.bool_vars[val2]])
-            else:
-                self._encode_sum_eq(left_terms, target)
-            return
-
-        # Handle simple case: single var + const on each side
-        if len(left_terms) == 1 and len(right_terms) == 1:
-            var1, var2 = left_terms[0], right_terms[0]
-            offset = right_const - left_const
-
-            if is_ne:
-                for v1 in var1.bool_vars:
-                    v2 = v1 - offset
-                    if v2 in var2.bool_vars:
-                        self._clauses.append([-var1.bool_vars[v1], -var2.bool_vars[v2]])
-            else:
-                for v1 in var1.bool_vars:
-                    v2 = v1 - offset
-                    if v2 in var2.bool_vars:
-                        self._clauses.append([-var1.bool_vars[v1], var2.bool_vars[v2]])
-                        self._clauses.append([var1.bool_vars[v1], -var2.bool_vars[v2]])
-                    else:
-                        self._clauses.append([-var1.bool_vars[v1]])
+                    self._clauses.append([-lit_a, lit_b] if lit_b is not None else [-lit_a])
 
     # Sum constraints
 
@@ -454,10 +384,7 @@ class SATEncoder:
 
     def _encode_constraint(self, constraint: Any) -> None:
         """Encode a single constraint to SAT clauses."""
-        if not isinstance(constraint, tuple):
-            return
-
-        kind = constraint[0]
+        kind = constraint[0] if isinstance(constraint, tuple) and constraint else None
 
         if kind == "all_different":
             self._encode_all_different(constraint[1])
@@ -477,16 +404,14 @@ class SATEncoder:
             self._encode_ne_var(constraint[1], constraint[2])
         elif kind == "ne_expr":
             self._encode_ne_expr(constraint[1], constraint[2], constraint[3])
-        elif kind == "add":
-            terms, const = self._flatten_sum(constraint)
-            if len(terms) == 0 and const != 0:
-                self._clauses.append([])
         elif kind == "sum_eq":
             self._encode_sum_eq(list(constraint[1]), constraint[2])
         elif kind == "sum_le":
             self._encode_sum_le(list(constraint[1]), constraint[2])
         elif kind == "sum_ge":
             self._encode_sum_ge(list(constraint[1]), constraint[2])
+        else:
+            raise ValueError(f"Unsupported constraint: {constraint!r}")
 
     # Main solve method
 
